@@ -12,15 +12,18 @@
    Readings (least demanding the text allows):
    - "every stored sector occupies exactly one slot": a sector that is in a slot is in no second
      one (rows of stored_sectors are never deleted, so "stored" cannot mean "has a row").
-   - counters are compared when a Store method has returned (RemoveVolume's own batches are one
-     step: between them the volume being destroyed has a stale used_sectors by design).
+   - counters are compared after every committed TRANSACTION: the first part of this file takes a
+     Store method as one step; the second part ("The batched loops") splits RemoveVolume,
+     Expire(V2)ContractSectors, ExpireTempSectors, PruneSectors and MigrateSectors into their
+     batches, so that a crash, a database error or another call between two batches falls
+     between two steps (model coq/Storage/Batch.v).
    - "past its proof window" is the code's boundary [window_end < h] (v2: [expiration_height < h]);
      temp storage "expiring after h" is [h < expiration].
    - "followed by a prune": a prune whose cutoff is later than every access.
    - StoreSector's choice among the empty slots of writable volumes is carried by the operation
      (validated by the model), so the theorems hold for every choice the SQL allows. *)
 From HostdBase Require Import Base.
-From HostdStorage Require Import Model Lemmas Proofs Proofs2 Proofs3.
+From HostdStorage Require Import Model Lemmas Proofs Proofs2 Proofs3 WProofs Batch BatchProofs BatchProofs2 BatchProofs3.
 
 (* Each stored sector occupies exactly one slot ... *)
 Theorem c08_sector_in_one_slot : forall (l : list op) v i v' i' r,
@@ -138,4 +141,206 @@ Example c08_nonvacuous :
   slot_at (reclaim 10 (runs init c08_demo)) 1 1 = Some None /\
   snd (step (reclaim 10 (runs init c08_demo)) (Snapshot [])) =
     OSnap [(1%N, false, true, 2%Z, 0%Z); (2%N, false, true, 2%Z, 1%Z)] (4, 1, 0, 1, 0)%Z [] [(2%N, true, [8%N])].
+Proof. vm_compute. repeat split; reflexivity. Qed.
+
+(** * The batched loops
+
+   [bop] (Batch.v) adds to the operations of Model.v ONE committed batch of each batched loop:
+   RemoveBatch (one batchRemoveVolumeSectors transaction) and RemoveFinal, ExpireBatch (v1/v2),
+   ExpireTempBatch, PruneBatch, MigrateTx, each with the batch size as a parameter and with the
+   rows the batch took carried by the operation and validated (any min(batch, eligible)
+   distinct eligible rows: the SELECT ... LIMIT has no ORDER BY).  [bruns init l] therefore ranges
+   over every sequence in which a batched operation is cut after any number of batches, other
+   operations run in between, and the operation is retried later or never.
+
+   ONE PROVISO, and it is a finding about the code, not about the model: ShrinkVolume sets
+   total_sectors := maxSectors whatever it deleted.  A removal batch takes the lowest row ids,
+   so a volume whose removal was cut has lost its LOW indices; an accepted shrink of such a volume
+   deletes fewer slots than it subtracts.  [bsafe_all] excludes exactly these shrinks (an accepted
+   ShrinkVolume must find every index below its target); sequences of Model.v's operations
+   satisfy it for free.  Full statement: the conjunction below for ALL l.  It is refuted
+   ([c08_shrink_after_cut_removal_refuted]; reproduced on the store by the batch harness, monitor
+   total-sectors-wrong-after-shrink-of-partly-removed-volume) and holds without the proviso when
+   every removal batch leaves a gap-free volume, which is what fixes/C08-remove-batch-order.patch
+   (ORDER BY volume_index DESC) makes the code do ([c08_batches_gap_free_full]). *)
+
+(* In every state of every such sequence -- in particular after every single batch, i.e. in
+   every state a crash or an error between two batches can expose -- a sector is in at most one
+   slot, every slot exists once, per-volume used/total and the global total/physical/contract/
+   temp metrics equal recounts. *)
+Theorem c08_every_batch_keeps_counters_partial : forall (l : list bop),
+  bsafe_all init l = true ->
+  let s := bruns init l in
+  (forall v i v' i' r, slot_at s v i = Some (Some r) -> slot_at s v' i' = Some (Some r) -> v = v' /\ i = i') /\
+  NoDup (map vid (vols s)) /\ (forall vl, In vl (vols s) -> NoDup (map fst (vslots vl))) /\
+  (forall vl, In vl (vols s) -> vused vl = n_used vl /\ vtotal vl = n_slots vl) /\
+  mTotal (mets s) = gsum n_slots (vols s) /\
+  mPhys (mets s) = gsum n_used (vols s) /\
+  mContract (mets s) = csum (cons s) /\
+  mTemp (mets s) = Z.of_nat (length (temps s)).
+Proof. exact batched_state_ok. Qed.
+Print Assumptions c08_every_batch_keeps_counters_partial.
+
+(* ... wherever the sequence is cut *)
+Theorem c08_cut_anywhere_partial : forall (l1 l2 : list bop),
+  bsafe_all init (l1 ++ l2) = true -> c08_state_ok (bruns init l1).
+Proof. exact batched_prefix_ok. Qed.
+Print Assumptions c08_cut_anywhere_partial.
+
+(* the proviso is void for sequences of whole Store calls: there the new sequences are the old ones *)
+Theorem c08_whole_calls_need_no_proviso : forall (l : list op),
+  bsafe_all init (map P l) = true /\ bruns init (map P l) = runs init l.
+Proof. exact (fun l => conj (plain_safe l init inv_init) (bruns_plain l init)). Qed.
+Print Assumptions c08_whole_calls_need_no_proviso.
+
+(* the full statement fails: AddVolume; GrowVolume 12; one batch (size 5) of RemoveVolume taking
+   the slots 0..4; ShrinkVolume 6 leaves ONE slot with total_sectors = 6 and totalSectors = 6 *)
+Theorem c08_shrink_after_cut_removal_refuted :
+  exists l : list bop,
+    let s := bruns init l in
+    (exists vl, In vl (vols s) /\ vtotal vl <> n_slots vl) /\ mTotal (mets s) <> gsum n_slots (vols s).
+Proof. exact cut_then_shrink_refutes. Qed.
+Print Assumptions c08_shrink_after_cut_removal_refuted.
+
+(* with removal batches that leave the volume gap-free (the highest indices first) the invariant
+   of the first part holds along every sequence, no proviso *)
+Theorem c08_batches_gap_free_full : forall (l : list bop),
+  contig_all init l = true ->
+  let s := bruns init l in
+  (forall v i v' i' r, slot_at s v i = Some (Some r) -> slot_at s v' i' = Some (Some r) -> v = v' /\ i = i') /\
+  (forall vl, In vl (vols s) -> map fst (vslots vl) = nseq 0%N (length (vslots vl))) /\
+  (forall vl, In vl (vols s) -> vused vl = n_used vl /\ vtotal vl = n_slots vl) /\
+  mTotal (mets s) = gsum n_slots (vols s) /\
+  mPhys (mets s) = gsum n_used (vols s) /\
+  mContract (mets s) = csum (cons s) /\
+  mTemp (mets s) = Z.of_nat (length (temps s)).
+Proof.
+  exact (fun l C =>
+    let I := inv_bruns_contig l init inv_init C in
+    conj (fun v i v' i' r => slot_injective (bruns init l) v i v' i' r I)
+      (conj (proj1 (Forall_forall _ _) (inv_contig (bruns init l) I))
+            (counters_exact (bruns init l) I))).
+Qed.
+Print Assumptions c08_batches_gap_free_full.
+
+Theorem c08_highest_indices_leave_gap_free : forall (sl : slots) (k : nat),
+  map fst sl = nseq 0%N (length sl) -> (k <= length sl)%nat ->
+  keys_contig (keep_slots (nseq (N.of_nat (length sl - k)) k) sl) = true.
+Proof. exact top_batch_contig. Qed.
+Print Assumptions c08_highest_indices_leave_gap_free.
+
+(* The full operations are the iterations of their batches: for every choice of rows the
+   batches make (cs: one list per batch, the last one empty), run to the end, the loop returns
+   what the atomic operation of Model.v returns and ends in the same state. *)
+Theorem c08_remove_volume_is_its_batches : forall v force b cs s,
+  (0 < b)%N -> winv s -> snd (remove_run v force b cs s) <> OBad ->
+  remove_run v force b cs s = step s (RemoveVol v force).
+Proof. exact (fun v force b cs s Hb => remove_run_atomic v force b Hb cs s). Qed.
+Print Assumptions c08_remove_volume_is_its_batches.
+
+Theorem c08_expire_is_its_batches : forall v2 h b cs s,
+  (0 < b)%N -> winv s -> snd (expire_run v2 h b cs s) <> OBad ->
+  expire_run v2 h b cs s = step s (if v2 then ExpireV2 h else ExpireV1 h).
+Proof.
+  exact (fun v2 h b cs s Hb I H =>
+    eq_trans (expire_run_atomic v2 h b Hb cs s I H)
+             (if v2 as x return fin s (expire_cons x h s) = step s (if x then ExpireV2 h else ExpireV1 h)
+              then eq_refl else eq_refl)).
+Qed.
+Print Assumptions c08_expire_is_its_batches.
+
+Theorem c08_expire_temp_is_its_batches : forall h b cs s,
+  (0 < b)%N -> winv s -> snd (temp_run h b cs s) <> OBad ->
+  temp_run h b cs s = step s (ExpireTemp h).
+Proof. exact (fun h b cs s Hb => temp_run_atomic h b Hb cs s). Qed.
+Print Assumptions c08_expire_temp_is_its_batches.
+
+Theorem c08_prune_is_its_batches : forall b cs s,
+  (0 < b)%N -> winv s -> snd (prune_run b cs s) <> OBad ->
+  prune_run b cs s = step s (Prune true).
+Proof. exact (fun b cs s Hb => prune_run_atomic b Hb cs s). Qed.
+Print Assumptions c08_prune_is_its_batches.
+
+Theorem c08_migrate_is_its_transactions : forall v start calls s,
+  mig_iter (S (length (slots_of v s))) v start start calls 0 0 s = step s (Migrate v start calls).
+Proof. exact (fun v start calls s => mig_iter_eq _ v start start calls 0%N 0%N s). Qed.
+Print Assumptions c08_migrate_is_its_transactions.
+
+(* [winv] above is the invariant of the reachable states *)
+Theorem c08_reachable_winv : forall (l : list bop), bsafe_all init l = true -> winv (bruns init l).
+Proof. exact (fun l => winv_bruns l init winv_init). Qed.
+Print Assumptions c08_reachable_winv.
+
+(* A removal cut after the batches cs1 and retried: whatever rows the retry's batches take, it
+   returns what the uninterrupted RemoveVolume would have returned and, when that is success,
+   ends in the very state the uninterrupted call would have produced. *)
+Theorem c08_cut_removal_retry_completes : forall v force b cs1 cs2 s s1,
+  (0 < b)%N -> winv s ->
+  remove_cut v force b cs1 s = (s1, ORes (Ok tt)) ->
+  snd (remove_run v force b cs2 s1) <> OBad ->
+  winv s1 /\ remove_run v force b cs2 s1 = fin s1 (remove_vol v force s).
+Proof. exact remove_retry_completes. Qed.
+Print Assumptions c08_cut_removal_retry_completes.
+
+(* the same for the other loops, one batch at a time: a committed batch followed by the whole
+   operation is the whole operation (so is any number of batches, by induction) *)
+Theorem c08_batch_then_whole_is_whole : forall s,
+  winv s ->
+  (forall v force b idxs s1, remove_batch v force b idxs s = (s1, ORes (Ok tt)) ->
+     remove_vol v force s1 = remove_vol v force s) /\
+  (forall v2 h b picks s1, expire_batch v2 h b picks s = (s1, ORes (Ok tt)) ->
+     expire_cons v2 h s1 = expire_cons v2 h s) /\
+  (forall h b picks s1, temp_batch h b picks s = (s1, ORes (Ok tt)) ->
+     expire_temp h s1 = expire_temp h s) /\
+  (forall b picks s1, prune_batch b picks s = (s1, ORes (Ok tt)) ->
+     prune true s1 = prune true s).
+Proof.
+  exact (fun s I =>
+    conj (fun v force b idxs s1 => remove_batch_absorbed v force b idxs s s1 I)
+    (conj (fun v2 h b picks s1 => expire_batch_absorbed v2 h b picks s s1 I)
+    (conj (fun h b picks s1 => temp_batch_absorbed h b picks s s1 I)
+          (fun b picks s1 => prune_batch_absorbed b picks s s1 I)))).
+Qed.
+Print Assumptions c08_batch_then_whole_is_whole.
+
+(* hostd's counter guards do not fire inside a batch either *)
+Theorem c08_batch_guards_never_fire : forall (l : list bop) o,
+  bsafe_all init l = true -> batch_op o = true -> is_panic_obs (snd (bstep (bruns init l) o)) = false.
+Proof. exact (fun l o S => batch_no_panic (bruns init l) o (winv_bruns l init winv_init S)). Qed.
+Print Assumptions c08_batch_guards_never_fire.
+
+(* lostSectors, batch by batch: a removal batch raises it by exactly the occupied slots it
+   destroys (none without force), no other batch changes it *)
+Theorem c08_batch_lost_exact : forall (l : list bop) v force b idxs,
+  bsafe_all init l = true ->
+  let s := bruns init l in
+  let s' := fst (bstep s (RemoveBatch v force b idxs)) in
+  (mLost (mets s') - mLost (mets s) = occ_total s - occ_total s')%Z /\
+  (force = false -> mLost (mets s') = mLost (mets s)).
+Proof. exact (fun l v force b idxs S => batch_lost_exact (bruns init l) v force b idxs (winv_bruns l init winv_init S)). Qed.
+Print Assumptions c08_batch_lost_exact.
+
+Theorem c08_batch_lost_unchanged_otherwise : forall s o, quiet_batch o = true ->
+  mLost (mets (fst (bstep s o))) = mLost (mets s).
+Proof. exact batch_lost_unchanged. Qed.
+Print Assumptions c08_batch_lost_unchanged_otherwise.
+
+(* non-vacuity: a forced removal of a 12-slot volume holding three sectors, batch size 5, cut
+   after its first batch (which took the slots 0..4 and with them the three sectors): the state
+   a crash leaves; the retry (7 slots left: one full batch, a short one, the empty one, the final
+   transaction) ends where the atomic RemoveVol ends. *)
+Definition c08_cut_demo : list bop :=
+  [P (AddVol 1 false); P (SetAvail 1 true); P (Grow 1 12);
+   P (Store 7 (Some (1, 0)) true); P (Store 8 (Some (1, 1)) true); P (Store 9 (Some (1, 2)) true);
+   RemoveBatch 1 true 5 [0; 1; 2; 3; 4]]%N.
+Example c08_batched_nonvacuous :
+  bsafe_all init c08_cut_demo = true /\
+  snd (bstep (bruns init c08_cut_demo) (P (Snapshot [7; 8; 9]%N))) =
+    OSnap [(1%N, false, true, 7%Z, 0%Z)] (7, 0, 3, 0, 0)%Z [None; None; None] [] /\
+  remove_cut 1 true 5 [[0; 1; 2; 3; 4]]%N (bruns init (removelast c08_cut_demo)) =
+    (bruns init c08_cut_demo, ORes (Ok tt)) /\
+  remove_run 1 true 5 [[5; 6; 7; 8; 9]; [10; 11]; []]%N (bruns init c08_cut_demo) =
+    step (bruns init (removelast c08_cut_demo)) (RemoveVol 1 true) /\
+  snd (bstep (fst (remove_run 1 true 5 [[5; 6; 7; 8; 9]; [10; 11]; []]%N (bruns init c08_cut_demo))) (P (Snapshot [7]%N))) =
+    OSnap [] (0, 0, 3, 0, 0)%Z [None] [].
 Proof. vm_compute. repeat split; reflexivity. Qed.
